@@ -35,6 +35,8 @@ VIAS = [("direct", "maxdepth"), ("direct", "full"), ("direct", "pigrow"), ("ge",
 def gen_cases(tier, seed):
     rng = pyrandom.Random(f"c03-{seed}")
     descs = grammars.family(seed, PLAN[tier]["grammars"], "general")
+    # weights do not enter the depth analysis: weighted grammars (zero weights included) must keep every limit usable
+    descs = descs + grammars.family(seed + 29, max(10, PLAN[tier]["grammars"] // 5), "weighted", with_fixed=False)
     for desc in descs:
         d = dict(desc)
         if rng.random() < 0.15:
